@@ -351,7 +351,7 @@ impl UnverifiedBiscuit {
             self.container
                 .append_serialized(&next_keypair, payload, Some(external_signature))?;
 
-        let token_block = proto_block_to_token_block(&block, Some(external_key)).unwrap();
+        let token_block = proto_block_to_token_block(&block, Some(external_key))?;
         for key in &token_block.public_keys.keys {
             symbols.public_keys.insert_fallible(key)?;
         }
